@@ -95,7 +95,7 @@ impl Config {
                 self.server_type,
             )?,
             (None, None) => super::Manager::new(
-                vec![ConnectionInfo::default()],
+                vec![default_connection_info()],
                 self.master_name.clone(),
                 self.node_connection_info.clone(),
                 self.server_type,
@@ -141,16 +141,19 @@ impl Config {
     }
 }
 
+/// The sentinel a [`Config`] naming neither `urls` nor `connections` talks to.
+fn default_connection_info() -> ConnectionInfo {
+    ConnectionInfo {
+        addr: ConnectionAddr::Tcp("127.0.0.1".to_string(), 26379),
+        ..ConnectionInfo::default()
+    }
+}
+
 impl Default for Config {
     fn default() -> Self {
-        let default_connection_info = ConnectionInfo {
-            addr: ConnectionAddr::Tcp("127.0.0.1".to_string(), 26379),
-            ..ConnectionInfo::default()
-        };
-
         Self {
             urls: None,
-            connections: Some(vec![default_connection_info.clone()]),
+            connections: Some(vec![default_connection_info()]),
             server_type: SentinelServerType::Master,
             master_name: default_master_name(),
             pool: None,
